@@ -134,8 +134,8 @@ func (its *PushPullHandler) initialize(retCh chan *model.PushPullPack) errors.Or
 func (its *PushPullHandler) finalize() {
 	if r := recover(); r != nil {
 		its.ctx.L().Errorf("recover panic [%v]: %v", r, string(debug.Stack()))
-
-		return
+		// the client still has to be answered and the lock released
+		its.err = errors.PushPullAbortionOfServer.New(its.ctx.L(), fmt.Sprintf("%v", r))
 	}
 	defer its.lock.Unlock()
 	if its.err == nil {
@@ -189,11 +189,12 @@ func (its *PushPullHandler) process(retCh chan *model.PushPullPack) {
 
 	defer its.finalize()
 
-	if its.err = its.validatePushPullPack(); its.err != nil {
+	// the response pack and the channel have to exist before anything can fail: finalize() answers through them
+	if its.err = its.initialize(retCh); its.err != nil {
 		return
 	}
 
-	if its.err = its.initialize(retCh); its.err != nil {
+	if its.err = its.validatePushPullPack(); its.err != nil {
 		return
 	}
 
